@@ -441,7 +441,7 @@ func (g *c01Gen) block(d, n int) []*ts {
 func (g *c01Gen) stmtS(d int) *ts {
 	r := g.r
 	g.budget = 5
-	x := r.Intn(9)
+	x := r.Intn(11)
 	if d <= 0 && x >= 4 {
 		x = r.Intn(4)
 	}
@@ -475,6 +475,32 @@ func (g *c01Gen) stmtS(d int) *ts {
 			s.Body = append(s.Body, g.stmtS(d-1))
 		}
 		return s
+	}
+	if x >= 9 {
+		sw := &ts{K: "switch", E: g.expr("int", 1)}
+		used := map[string]bool{}
+		for i, n := 0, 1+r.Intn(3); i < n; i++ {
+			c := tsClause{}
+			for j, k := 0, 1+r.Intn(2); j < k; j++ {
+				e := intLit(r)
+				if used[e.Lit] {
+					continue
+				}
+				used[e.Lit] = true
+				c.Es = append(c.Es, e)
+			}
+			if len(c.Es) == 0 {
+				continue
+			}
+			for j, k := 0, r.Intn(3); j < k; j++ {
+				c.Body = append(c.Body, g.stmtS(d-1))
+			}
+			sw.Clauses = append(sw.Clauses, c)
+		}
+		if r.Intn(2) == 0 {
+			sw.Clauses = append(sw.Clauses, tsClause{Default: true, Body: []*ts{g.stmtS(d - 1)}})
+		}
+		return sw
 	}
 	s := &ts{K: "block"}
 	for i, n := 0, 1+r.Intn(2); i < n; i++ {
@@ -1035,26 +1061,33 @@ func (b *c01B) stmt(s *ts) {
 		cb.End()
 	case "switch":
 		cb.Switch()
+		b.sop("OSwitch")
 		if s.E != nil {
 			b.expr(s.E)
 		} else {
 			cb.None()
 		}
 		cb.Then()
+		b.sop("OThen")
 		for _, c := range s.Clauses {
 			if c.Default {
 				cb.DefaultThen()
+				b.sop("ODefault")
 			} else {
 				cb.Case()
+				b.sop("OCase")
 				for _, e := range c.Es {
 					b.expr(e)
 				}
 				cb.Then()
+				b.sop(fmt.Sprintf("OCaseThen %d", len(c.Es)))
 			}
 			b.list(c.Body)
 			cb.End()
+			b.sop("OEnd")
 		}
 		cb.End()
+		b.sop("OEnd")
 	case "block":
 		cb.Block()
 		b.sop("OBlock")
@@ -1614,6 +1647,21 @@ func (b *c01B) genericStmt(st ast.Stmt) (string, bool) {
 	case *ast.BlockStmt:
 		body, ok := b.genericStmts(st.List)
 		return "(SBlock " + body + ")", ok
+	case *ast.SwitchStmt:
+		if st.Init == nil && st.Tag != nil {
+			cs, ok := "CNil", true
+			for i := len(st.Body.List) - 1; i >= 0; i-- {
+				cc := st.Body.List[i].(*ast.CaseClause)
+				es := "XNil"
+				for j := len(cc.List) - 1; j >= 0; j-- {
+					es = "(XCons " + b.generic(cc.List[j]) + " " + es + ")"
+				}
+				body, ok1 := b.genericStmts(cc.Body)
+				ok = ok && ok1
+				cs = "(CCons " + es + " " + body + " " + cs + ")"
+			}
+			return "(SSwitch " + b.generic(st.Tag) + " " + cs + ")", ok
+		}
 	}
 	return "(SBlock TNil)", false
 }
